@@ -9,6 +9,7 @@ import scipy.linalg as sla
 from .. import gen, probe, monitors_sle, monitors_evp
 from ..dense import dense, mat
 from ..drive import call
+from scipy.sparse.linalg import ArpackError, ArpackNoConvergence
 from ..shard import Workload
 from ._common import arm_light
 
@@ -55,21 +56,31 @@ def vec(t):
         return mat(dense(t)).reshape(-1)
 
 
-def w_ritz(ctx, rng, idx):
+def w_mixed_pencil(ctx, rng, idx):
+    """generalised problems whose two operators have different dtypes (real operator, complex Hermitian right-hand operator and vice
+    versa), every micro solver in turn"""
+    w_ritz(ctx, rng, idx, mixed=True)
+
+
+def w_ritz(ctx, rng, idx, mixed=False):
     dims = dims_for(rng, dmin=1)
     d = len(dims)
     cplx = bool(rng.integers(0, 2))
     A = hermitian_op(rng, dims, cplx)
-    gevp = rng.random() < 0.35
+    gevp = mixed or rng.random() < 0.35
     B = None
     if gevp:
         with probe.oracle():
-            B = gen.hermitian_tt(rng, dims, 1, cplx if rng.random() < 0.6 else (not cplx), hpd=True, eps=1.0)  # (dtype of B independent of A's)
+            B = gen.hermitian_tt(rng, dims, 1, (not cplx) if mixed else (cplx if rng.random() < 0.6 else (not cplx)), hpd=True, eps=1.0)  # (dtype of B independent of A's)
     nev = int(rng.integers(1, 4))
     ranks = gen.feasible_ranks(dims, [1] * d, [1] + [int(rng.integers(1, 4)) for _ in range(d - 1)] + [1])
     micro = min(ranks[i] * dims[i] * ranks[i + 1] for i in range(d))
     nev = max(1, min(nev, micro))
+    if mixed:
+        nev = max(1, min(nev, micro - 2))  # (leaves room for the iterative micro solver whenever the micro problem has 3+ unknowns)
     solver = ['eig', 'eigh', 'eigs'][int(rng.integers(0, 3))]
+    if mixed:
+        solver = ['eigs', 'eig', 'eigh', 'eigs'][idx % 4]
     with probe.oracle():
         Am = mat(dense(A))
         Bm = mat(dense(B)) if B is not None else None
@@ -89,13 +100,16 @@ def w_ritz(ctx, rng, idx):
     ctx.describe({'op': 'evp.als', 'dims': dims, 'complex': cplx, 'gevp': gevp, 'nev': nev, 'solver': solver, 'sigma': sigma, 'ranks': ranks})
     tags = ['solver=' + solver] + (['complex'] if cplx else []) + (['gevp'] if gevp else [])
     vals = []
-    refus = (sla.LinAlgError, np.linalg.LinAlgError) if solver != 'eigs' else (Exception,)
+    # ARPACK may legitimately give up (no convergence, singular shifted factorisation); anything else raised on the eigs path is a failure
+    refus = (sla.LinAlgError, np.linalg.LinAlgError) if solver != 'eigs' else (sla.LinAlgError, np.linalg.LinAlgError, ArpackError, ArpackNoConvergence, RuntimeError)
     for rep in (1, 2, 3, 4):
         ok, r = call('evp.als', evp.als, A, g, prop=P, tags=tags, refusals=refus, repeats=rep, **kw)
         if not ok:
             ctx.skip('evp_micro_solver_refused')
             return
         vals.append(r[0])
+    if solver == 'eigs':
+        ctx.checks['C08|evp.als:eigs_micro_solver_completed_and_judged'] += 1
     if nev == 1 and solver != 'eigs':
         dist = [abs(v - sigma) for v in vals]
         nA = float(np.linalg.norm(Am, 2))
@@ -296,12 +310,13 @@ def w_large_micro(ctx, rng, idx):
 WORKLOADS = [
     Workload('large_micro', w_large_micro, 2, 12),
     Workload('ritz', w_ritz, 160, 4000),
+    Workload('mixed_pencil', w_mixed_pencil, 100, 1200),
     Workload('fixed_point', w_fixed_point, 120, 3000),
     Workload('maximal', w_maximal, 120, 3000),
     Workload('deflation', w_deflation, 80, 2000),
     Workload('power', w_power, 80, 2000),
 ]
-REQUIRED = ['C08|evp.__construct_micro_matrices:equals_projected_operator', 'C08|evp.__construct_micro_matrices:equals_projected_right_operator',
+REQUIRED = ['C08|evp.als:eigs_micro_solver_completed_and_judged', 'C08|evp.__construct_micro_matrices:equals_projected_operator', 'C08|evp.__construct_micro_matrices:equals_projected_right_operator',
             'C08|evp.__construct_micro_matrices:hermitian_for_hermitian_operator', 'C08|evp.als:eigenvalue_is_rayleigh_quotient', 'C08|evp.als:unit_norm',
             'C08|evp.als:not_above_largest_eigenvalue', 'C08|evp.als:more_sweeps_not_farther_from_sigma', 'C08|evp.als:exact_dominant_eigentensor_is_fixed_point',
             'C08|evp.als:maximal_rank_guess_gives_exact_extremal_pair', 'C08|evp.als:deflation_equals_shifted_operator',
